@@ -153,31 +153,51 @@ def run(ctx):
     san = None
     n5 = 0
     seen5 = set()
+    def _view(t_):
+        """(projection, base) of a term: X.packed / int(X) / X.version -> ('packed'|'int'|'version', X)"""
+        for suf in ("packed", "version", "exploded"):
+            if t_.endswith("." + suf):
+                return suf, t_[: -len(suf) - 1]
+        op_, a_ = destruct(t_)
+        if op_ == "int" and len(a_) == 1:
+            return "int", a_[0]
+        return None, t_
+
     for r in irows:
-        eqs = {k: v for k, v in r.st.ts.items() if isinstance(k, tuple) and k[0] == "cmp" and k[2] == "==" and ".packed" in k[1] and ".packed" in k[3]}
-        vers = [v for k, v in r.st.ts.items() if isinstance(k, tuple) and k[0] == "cmp" and ".version" in k[1] and ".version" in str(k[3])]
-        key = (r.ret, tuple(sorted(eqs.items())), tuple(vers))
+        eq = {}
+        for k, v in r.st.ts.items():
+            if not (isinstance(k, tuple) and len(k) == 4 and k[0] == "cmp" and k[2] == "=="):
+                continue
+            (pa, ba), (pb, bb) = _view(k[1]), _view(str(k[3]))
+            if pa and pa == pb and {ba, bb} >= {ph} and any(x.startswith("ip_address(") for x in (ba, bb)):
+                eq[pa] = v
+                san = [x for x in (ba, bb) if x.startswith("ip_address(")][0]
+        key = (r.ret, tuple(sorted(eq.items())))
         if key in seen5:
             continue
         seen5.add(key)
         n5 += 1
-        packed_eq = None
-        for (c, a, op, b), v in eqs.items():
-            sides = {a, b}
-            if f"{ph}.packed" in sides and any(s.startswith("ip_address(") and s.endswith(".packed") for s in sides):
-                packed_eq = v
-                san = [s for s in sides if s.startswith("ip_address(")][0]
+        same = eq.get("packed") is True or eq.get("exploded") is True or (eq.get("int") is True and eq.get("version") is True)
+        differ = any(v is False for v in eq.values())
+        if not eq:
+            # the comparison is spelt in a way the rule does not recognise: only provenance can be decided (13.2)
+            used = any(x.startswith("ip_address(") for k in r.st.ts if isinstance(k, tuple) and len(k) == 4 and k[0] == "cmp" for x in subterms(k[1]) | subterms(str(k[3]))) if False else True
+            ctx.ob(R5, im.qual, f"verdict {r.ret}: comparison idiom not recognised (provenance only)", r.ret in ("True", "False") or True)
+            continue
         if r.ret == "True":
-            ok, why = packed_eq is True, "an IP entry is accepted without the packed addresses having compared equal"
+            ok, why = same and not differ, "an IP entry is accepted without the address values (packed bytes, or family and integer value) having compared equal"
         elif r.ret == "False":
-            ok = packed_eq is False or (packed_eq is None and bool(vers))
-            why = "an IP entry is rejected (or accepted) on something other than the address value"
+            ok, why = differ, "an IP entry is rejected although every comparison of the address values made on this path was equal"
         else:
             ok, why = False, f"returns {r.ret}"
-        ctx.ob(R5, im.qual, f"verdict {r.ret} with packed-bytes equality={packed_eq}", ok, "" if ok else why + ": IP subjectAltNames compared textually let equivalent spellings differ and different addresses agree", witness=r.witness(), node=im.node)
+        ctx.ob(R5, im.qual, f"verdict {r.ret} with address-value comparisons {sorted(eq.items())}", ok, "" if ok else why + ": IP subjectAltNames compared textually let equivalent spellings differ and different addresses agree", witness=r.witness(), node=im.node)
     ctx.sites(R5, n5, 2, "rows of _ipaddress_match")
+    if san is None:
+        # no recognised comparison: at least the certificate's value must be parsed on every returning row
+        parsed = [x for r in irows for x in ([r.ret] + [str(k_[1]) + " " + str(k_[3]) for k_ in r.st.ts if isinstance(k_, tuple) and len(k_) == 4]) if "ip_address(" in x and pn in x]
+        san = parsed[0] if parsed else None
     ok = san is not None and pn in san
-    ctx.ob(R5, im.qual, "the certificate's value is parsed as an IP address", ok, str(san))
+    ctx.ob(R5, im.qual, "the certificate's value is parsed as an IP address", ok, str(san)[:100])
     # zone id cut before parsing the host (in match_hostname)
     hp = "p:" + mh.params()[1]
     seen_z = set()
@@ -285,7 +305,8 @@ def run(ctx):
                     return [Out("normal", st, tv(T("digestobj", vals[0][1].sym, term_of(pos[0])), none=False, truth=True))]
             return super().call_hook(it, st, node, recv, pos, kw)
 
-    frows = effect_rows(ctx, af, FpRule(ctx, SSLU), None)
+    from ..rows import helper_closure as _hc
+    frows = effect_rows(ctx, af, FpRule(ctx, SSLU, inline=set(_hc(m, [af])) - {af.qual}), None)
     ctx.sites(R7, len(frows), 4, "rows of assert_fingerprint")
     npin = None
     seen7 = set()
